@@ -1008,7 +1008,11 @@ func (w *world) writePending(ev *Event) {
 	if ev.Req != nil {
 		ep = strings.SplitN(ev.Req.Path, "?", 2)[0]
 	}
-	v := verifh.Violation{Property: w.prop, Clause: "process-survives", Op: ep, Witness: "process-crash", Detail: fmt.Sprintf("the server process died while serving event %d (%s): %s", w.evIdx, ev.Kind, reqDesc(ev.Req))}
+	detail := fmt.Sprintf("the server process died while serving event %d (%s): %s", w.evIdx, ev.Kind, reqDesc(ev.Req))
+	if ev.Kind == "start" {
+		ep, detail = "start", "the process died while the service was being constructed and started (NewServer / Serve)"
+	}
+	v := verifh.Violation{Property: w.prop, Clause: "process-survives", Op: ep, Witness: "process-crash", Detail: detail}
 	ff := verifh.FailFile{Property: w.prop, World: "C", Signature: v.Signature(), Violation: v, Plan: pb, Crash: true}
 	ff.Seed, ff.WorkerSeed, ff.Checks, ff.RunIndex = verifh.HistoryInfo()
 	b, _ := json.Marshal(ff)
@@ -1029,6 +1033,9 @@ func (w *world) run() {
 		w.sleep(time.Duration(w.plan.StartJumpS) * time.Second)
 	}
 	w.calibrate()
+	// a service that cannot even be constructed and started dies here: that, too, is a witness (C19)
+	w.evIdx = -1
+	w.writePending(&Event{Kind: "start"})
 	w.startServer()
 	synctest.Wait()
 
